@@ -3,12 +3,14 @@
 package group
 
 import (
+	"net/http"
 	"context"
 	"io"
 	"net"
 	"time"
 
 	"github.com/fatedier/frp/pkg/config/types"
+	netpkg "github.com/fatedier/frp/pkg/util/net"
 	"github.com/fatedier/frp/pkg/util/vhost"
 	"github.com/fatedier/frp/server/ports"
 	"github.com/fatedier/frp/zzverif"
@@ -27,6 +29,9 @@ func (c *c11Conn) RemoteAddr() net.Addr               { return nil }
 func (c *c11Conn) SetDeadline(t time.Time) error      { return nil }
 func (c *c11Conn) SetReadDeadline(t time.Time) error  { return nil }
 func (c *c11Conn) SetWriteDeadline(t time.Time) error { return nil }
+
+// stub for (*http.Response).Write: the "200 Connection established" answer of the CONNECT muxer
+func c11StubRespWrite(r *http.Response, w io.Writer) error { return nil }
 
 // VerifC11GroupHandoff: user connections arriving at a tcp or tcpmux group's shared endpoint while
 // members serve, are busy, or leave: every connection is accepted by exactly one member or closed;
@@ -58,7 +63,7 @@ func VerifC11GroupHandoff() {
 		mux = m
 		ctl := NewTCPMuxGroupCtl(m)
 		join = func(name string) (net.Listener, error) {
-			return ctl.Listen(context.Background(), "http_connect", "g", "k", vhost.RouteConfig{Domain: "a.com"})
+			return ctl.Listen(context.Background(), "httpconnect", "g", "k", vhost.RouteConfig{Domain: "a.com"})
 		}
 	}
 
@@ -129,6 +134,10 @@ func VerifC11GroupHandoff() {
 		taken := 0
 		for _, m := range ms {
 			for _, c := range m.got {
+				// (the vhost listener hands connections over wrapped in a context carrier)
+				if cc, ok := c.(*netpkg.ContextConn); ok {
+					c = cc.Conn
+				}
 				if c == net.Conn(u) {
 					taken++
 				}
@@ -138,6 +147,9 @@ func VerifC11GroupHandoff() {
 		if taken == 1 {
 			zzverif.Assert(u.closed == 0, "C11.handoff.handed-over-connection-left-open")
 			zzverif.Reach("C11.handoff.taken")
+			if kind == 1 {
+				zzverif.Reach("C11.handoff.taken-through-the-vhost-muxer")
+			}
 		}
 		if servingStays {
 			zzverif.Assert(taken == 1, "C13.handoff.no-connection-lost-while-a-serving-member-stays")
